@@ -780,3 +780,50 @@ CHECKS["C01"]["note"] = (
     'comments) cannot violate the statement and are left out; pickles that load to a foreign object under the '
     '*current* version are outside the alphabet.'
 )
+
+CHECKS["C13"]["technique"] = (
+    'exhaustive enumeration of (variable kind x attribute x expression form) singles and pairs, and of all short '
+    'event histories (read function / read variables / simplify(option)) on one Model object, against reference '
+    'attribute values'
+)
+
+CHECKS["C13"]["text"] = (
+    'append to the existing text "Histories: on 35 (thorough 55) models whose attributes depend on parameters with '
+    'values, a free parameter and an expression parameter (plus a constant and an alias pair declared before the '
+    'variable), every sequence of at most 3 (thorough 4) events from {read variable_metadata_function, read every '
+    'Variable attribute, simplify(o)} -- o each of resolve_parameter_values, replace_parameter_expressions, '
+    'replace_constant_expressions, replace_parameter_values, replace_constant_values, expand_vectors, '
+    'detect_aliases that can change the model by the reference (thorough also replace_parameter_expressions + '
+    'replace_parameter_values in one call) -- is applied to one Model object (14 079 / 259 195 histories); at every '
+    'read and after the last event the variable lists, python types, every attribute of every listed Variable and '
+    'every block of the metadata function (arity, shape, values at 3 parameter points, with the parameters the '
+    'model has then) are compared with a reference state machine of what each option inlines / removes."'
+)
+
+CHECKS["C13"]["note"] = (
+    'Finite parameter grid; array attributes whose *elements* depend on parameters are outside the alphabet. '
+    'Histories: a simplify() call that raises ends that history without a verdict (counted); attributes do not '
+    'mention constants; the aliased pair has default attributes (no alias-merge rule assumed); '
+    'eliminate_constant_assignments and eliminable_variable_expression are not among the events.'
+)
+
+CHECKS["C05"]["text"] = (
+    'All sequences of flatten / CasADi / SymPy / XML requests (every class, with repetition) up to length 3 (quick) '
+    '/ 5 (thorough) on one parsed tree are executed on the real code for 16 hand-written libraries (5 basic ones; '
+    '11 in which one class is shared by users in different roles, one per construct whose handling can reach the '
+    'parsed tree: dotted constant reference, extends, class redeclaration, redeclared package with constants, short '
+    'class definitions / types, imports incl. the unqualified-import cache, function pull, connectors, '
+    'enclosing-scope lookup, arrays / input-output components), every test model (flatten and CasADi only in quick) '
+    'and 3 merges of test files with Tree.extend; each step must equal the same request on a fresh parse. States '
+    'are structural fingerprints of the whole tree, so when no request changes the tree the search closes and the '
+    'result holds for histories of any length by induction. All ordered pairs of -m requests through '
+    'tools.compiler.main on the hand-written libraries are compared with the single requests.'
+)
+
+CHECKS["C05"]["note"] = (
+    'Libraries are finite samples of the program space (the history quantifier is what is exhausted); results are '
+    "compared as length+sha1 of pymoca's own JSON form of the flat tree / str(Model)+attributes / generated text; "
+    'exception type only. Trees are parsed once per library and restored from pickle snapshots that are used only '
+    "when their structural fingerprint equals the live tree's; the first difference per state and every replay use "
+    'real parses only. Component redeclaration inside a modification is excluded (the parser raises).'
+)
